@@ -3,6 +3,7 @@
 package main
 
 import (
+	"strconv"
 	"strings"
 
 	"github.com/github/go-spdx/v2/spdxexp/spdxlicenses"
@@ -272,6 +273,51 @@ func genCorpus(seed uint64, size int) *proto.Corpus {
 	g.add(proto.Call{Fn: proto.FnSatisfies, Expr: "MIT", List: []string{}, Fam: g.fam, Tag: "empty-list"})
 	g.add(proto.Call{Fn: proto.FnValidate, NilList: true, Fam: g.fam, Tag: "nil-list"})
 	g.add(proto.Call{Fn: proto.FnValidate, List: []string{}, Fam: g.fam, Tag: "empty-list"})
+
+	// long inputs: allowed lists with many entries (unsorted, duplicated), long linear
+	// expressions (OR / AND chains are linear in cost)
+	for k := 0; k < 4; k++ {
+		g.fam++
+		n := []int{9, 13, 20, 34}[k]
+		long := make([]string, 0, n)
+		for i := 0; i < n; i++ {
+			switch r.n(6) {
+			case 0:
+				long = append(long, g.rangedID())
+			case 1:
+				if len(long) > 0 {
+					long = append(long, long[r.n(len(long))]) // duplicate
+					continue
+				}
+				fallthrough
+			default:
+				long = append(long, g.plainID())
+			}
+		}
+		nt := 3 + r.n(6)
+		var parts []string
+		for i := 0; i < nt; i++ {
+			parts = append(parts, long[r.n(len(long))])
+		}
+		op := []string{" OR ", " AND "}[k%2]
+		e := strings.Join(parts, op)
+		g.add(proto.Call{Fn: proto.FnSatisfies, Expr: e, List: long, Fam: g.fam, Tag: "long"})
+		g.add(proto.Call{Fn: proto.FnSatisfies, Expr: parts[0], List: long, Fam: g.fam, Tag: "long"})
+		g.add(proto.Call{Fn: proto.FnExtract, Expr: e, Fam: g.fam, Tag: "long"})
+		g.add(proto.Call{Fn: proto.FnValidate, List: long, Fam: g.fam, Tag: "long"})
+		withBad := append(append([]string{}, long[:n/2]...), "NOT-A-LICENSE-"+strconv.Itoa(k))
+		withBad = append(withBad, long[n/2:]...)
+		withBad = append(withBad, "ALSO BAD")
+		g.add(proto.Call{Fn: proto.FnValidate, List: withBad, Fam: g.fam, Tag: "long"})
+		g.add(proto.Call{Fn: proto.FnSatisfies, Expr: e, List: withBad, Fam: g.fam, Tag: "long"})
+		// same content, reversed
+		rv := make([]string, n)
+		for i := range long {
+			rv[n-1-i] = long[i]
+		}
+		g.add(proto.Call{Fn: proto.FnSatisfies, Expr: e, List: rv, Fam: g.fam, Tag: "long"})
+		g.add(proto.Call{Fn: proto.FnValidate, List: rv, Fam: g.fam, Tag: "long"})
+	}
 
 	// generated families from the tree's own tables
 	for len(g.calls) < size {
